@@ -19,6 +19,8 @@ MRO = {
     'AbstractJob': ['AbstractJob'],
     'Sequence': ['Sequence'],
     'Window': ['Window'],
+    'Queue': ['Queue'],
+    'Task': ['Task'],
     'DotStyle': ['DotStyle'],
 }
 
@@ -205,7 +207,10 @@ def call_with_args(ex, c, recv, args, kwargs, st, awaited, e, first_is_self=Fals
         for (pname, pkind, _d) in c.params:
             k = str(pkind).replace('kw:', '')
             k = 'list' if k == 'varargs' else k
-            argmap[pname] = ex.coerce(bound[pname], k, st2)
+            if k == 'any':
+                argmap[pname] = bound[pname]        # python-level value (coroutine object, container)
+            else:
+                argmap[pname] = ex.coerce(bound[pname], k, st2)
         if c.pure is not None:
             ctx = Ctx(pre=st2, cur=st2, args=argmap)
             v = c.pure(ctx)
@@ -277,6 +282,12 @@ def run_contract(ex, c, argmap, st, e, yield_from=False):
     for label, fn in c._requires:
         goal = fn(ctx0)
         ex.oblige(st, '%s:%s' % (site, label), goal, 'call-pre', ctx0, lineno=getattr(e, 'lineno', None))
+    # assertions the caller's contract attaches to its calls of this callee (e.g. how a wait is armed)
+    for label, fn in getattr(ex.c, 'at_call', {}).get(c.qualname, []):
+        cc = ex.mkctx(st)
+        cc.callargs = argmap
+        ex.oblige(st, '%s:%s' % (site, label), fn(cc), 'call-site', cc, lineno=getattr(e, 'lineno', None),
+                  props=ex.c.label_props.get(label))
     # well-founded recursion: the callee's measure is below the caller's measure at entry
     dec_callee = getattr(c, 'decreases', None)
     dec_caller = getattr(ex.c, 'decreases', None)
@@ -287,8 +298,15 @@ def run_contract(ex, c, argmap, st, e, yield_from=False):
                   'call-pre', ctx0, lineno=getattr(e, 'lineno', None))
     outs = []
 
+    suspends = c.suspends
+    if c.kind == 'function' and c.file is not None and getattr(c, 'syntactic', None) is None:
+        fi_ = ex.repo.find(c.file, c.qualname)
+        if fi_ is not None and fi_.is_async:
+            # a coroutine of the package suspends wherever its body does: the caller's rely applies
+            suspends = True
+
     def rely_step(s):
-        if not c.suspends:
+        if not suspends:
             return
         for f in ex.c.rely_fields:
             s.havoc(f)
@@ -308,18 +326,27 @@ def run_contract(ex, c, argmap, st, e, yield_from=False):
     ctx.mode = 'assume'
     kind = c.result_kind
     result = None
-    if kind != 'none':
+    result_v = None
+    if str(kind).startswith('tuple:'):
+        parts = kind.split(':')[1].split(',')
+        rs = [L.fresh('res_%s%d' % (c.method, i), L.KIND_SORT[k_]) for i, k_ in enumerate(parts)]
+        result = tuple(rs)
+        result_v = V('tuple', None, [V(k_, r_) for k_, r_ in zip(parts, rs)])
+    elif kind != 'none':
         result = L.fresh('res_' + c.method, L.KIND_SORT[kind])
+        result_v = V(kind, result)
     ctx.result = result
     for label, fn in c._ensures:
         post.assume(fn(ctx))
     post.assume(ctx.defs)
     post.assume([fm for _lab, fm in WF.wf_obligations(post, c._modifies)])
     post.trace.append('call %s' % site)
+    # vacuity guard: the callee's contract must not make a reachable state unreachable
+    ex.covers.append(('%s/cover[after %s]#%d' % (ex.c.qualname, site, len(ex.covers)), list(post.pc), list(st.pc)))
     if yield_from:
         outs.append((post, V('yielded')))
     else:
-        outs.append((post, VNONE if kind == 'none' else V(kind, result)))
+        outs.append((post, VNONE if kind == 'none' else result_v))
     # exceptional outcomes
     for cls, spec in c._raises.items():
         s2 = st.copy()
@@ -327,7 +354,12 @@ def run_contract(ex, c, argmap, st, e, yield_from=False):
         for f in (c._raise_modifies if c._raise_modifies is not None else c._modifies):
             s2.havoc(f)
         alive_mono(before, s2)
-        exc = s2.alloc('exc', cls if cls in L.CLASSES else 'Exception')
+        if getattr(c, 'raise_fresh', True):
+            exc = s2.alloc('exc', cls if cls in L.CLASSES else 'Exception')
+        else:
+            # an arbitrary (possibly pre-existing) exception object of that class
+            exc = L.fresh('exc', L.Ref)
+            s2.assume(s2.alive(exc), L.isa[cls if cls in L.CLASSES else 'Exception'](exc))
         cx = Ctx(pre=before, cur=s2, args=argmap, exc=exc)
         cx.mode = 'assume'
         for label, fn in spec:
